@@ -1,4 +1,4 @@
-\* thorough: extent map, inline, 13 ranges
+\* the same scope with the repaired evict() (never extends the media file): must hold
 SPECIFICATION Spec
 CONSTANTS
   NF = 1
@@ -8,17 +8,17 @@ CONSTANTS
   Readers = {r1, r2}
   r1 = r1
   r2 = r2
-  ReadSet <- RS_t2
-  NReads = 1
-  MaxEv = 1
+  ReadSet <- RS_p
+  NReads = 2
+  MaxEv = 0
   Async = FALSE
   MaxRefilling = 2
-  Faults = 1
-  Fiemap = TRUE
+  Faults = 0
+  Fiemap = FALSE
   CapFull = FALSE
-  ReopenMax = 0
-  PunchMax = 0
-  PunchGuard = FALSE
+  ReopenMax = 1
+  PunchMax = 1
+  PunchGuard = TRUE
   Bug = "none"
 SYMMETRY Sym
 INVARIANTS ReadsEqualSource FailedSourceNeverWrongBytes NeverBeyondSize MediaOnlyCorrectOrHole RefillDedup RangeLockDisjoint RefillingCount LocksAtRest TypeOK
